@@ -432,6 +432,7 @@ package types
 //@ func (*HttpContext).Write(wb)
 //@   props C11
 //@   requires c != nil && c.response != nil && c.ResponseHeaders != nil
+//@   assumes forall k string :: maphas(c.ResponseHeaders.parameters, k) ==> len(mapval(c.ResponseHeaders.parameters, k)) > 0    // every stored header has at least one value: Set stores one, With copies the lists of net/http's header map and of other bags
 //@   modifies *
 //@   ensures [C11.nevertwice] old(c.isDone.v) != 0 ==> result1 != nil && result0 == 0 && calls(http.ResponseWriter.Write) == 0 && calls(http.ResponseWriter.WriteHeader) == 0
 //@   ensures [C11.marksdone]  c.isDone.v != 0
@@ -535,7 +536,7 @@ package types
 //@   let o      = old(c.options.Origin)
 //@   let star   = typeis(o, string) && unbox(o, string) == "*"
 //@   let fixed  = typeis(o, string) && unbox(o, string) != "*"
-//@   let origin = uf_s_peek(c.ctx.headers, "Origin", old(c.ctx.headers.$bagver))
+//@   let origin = old(bagPeek(c.ctx.headers, "Origin"))
 //@   let last   = c.headers[len(c.headers) - 1]
 //@   ensures [C17.acao.one]     result == c && len(c.headers) == len(old(c.headers)) + 1 && last != nil && last.Key == "Access-Control-Allow-Origin"
 //@   ensures [C17.acao.star]    star ==> last.Value == "*" && len(c.varys) == len(old(c.varys))
@@ -558,7 +559,7 @@ package types
 //@ func (*cors).applyHeaders()
 //@   props C17
 //@   requires corsOK(c)
-//@   modifies c.ctx.ResponseHeaders.$bagver
+//@   modifies MapOf(c.ctx.ResponseHeaders.parameters)
 //@   loop 1 invariant corsOK(c) && calls((*utils.ParameterBag).Set) == $i
 //@   loop 1 assumes forall k int :: 0 <= k && k < len(c.headers) ==> c.headers[k] != nil   // the configure* steps only append freshly built entries
 //@   let vary = ret((*utils.ParameterBag).Peek, 1)
